@@ -34,7 +34,7 @@ MAP_MUTS = ["setitem", "delitem", "clear", "update", "inner_setitem", "inner_cle
 def floors(ctx):
     q = ctx.tier == "quick"
     f = {"evaluations": 5000 if q else 50000, "mutation_took_effect_on_copy": 1000, "protected_by_immutability": 500,
-         "input_probes": 300, "input_probes_with_unhashable_members": 50, "sibling_key_probes": 200}
+         "input_probes": 300, "input_probes_with_unhashable_members": 50, "sibling_key_probes": 200, "first_read_after_other_side_change_probes": 200}
     for acc in ("links", "vertices", "u_vertices", "universes", "neighbors", "find_links", "bft", "dft_recursive",
                 "dft_iterative", "ibft", "edge_whitelist"):
         for mode in ("off", "cold", "warm", "off_then_on"):
@@ -295,6 +295,72 @@ def probe_siblings(ctx, pool, rng, history):
             Vertex.NEIGHBOR_CACHING = False
 
 
+def probe_first_reads(ctx, pool, rng, history):
+    """
+    The FIRST read of an accessor after a change made from the other side of an association: a vertex joins or
+    leaves a universe through the vertex-side call, a vertex is attached to a link from the vertex side - and the
+    very next thing the caller does is read the collection and change what was handed out.  Membership known from
+    before the change (+/- the one vertex) is the oracle; later universe-restricted traversals must follow it.
+    """
+    vs = [o for o in pool.objs.values() if isinstance(o, Vertex) and not isinstance(o, Universe)]
+    us = [o for o in pool.objs.values() if isinstance(o, Universe)]
+    if not vs:
+        return
+    u = rng.choice(us) if us and rng.random() < 0.7 else Universe()
+    for cache in (False, True):
+        Vertex.NEIGHBOR_CACHING = cache
+        try:
+            before = list(u.vertices)
+            inside = [v for v in vs if any(v is m for m in before)]
+            outside = [v for v in vs if not any(v is m for m in before)]
+            if outside and (not inside or rng.random() < 0.6):
+                v = rng.choice(outside)
+                v.add_to_universe(u)            # vertex-side join
+                expect = before + [v]
+            elif inside:
+                v = rng.choice(inside)
+                v.remove_from_universe(u)       # vertex-side leave
+                expect = [m for m in before if m is not v]
+            else:
+                continue
+            handed = u.vertices                 # the first read since the change
+            kind = rng.choice(LIST_MUTS)
+            how = mutate(handed, kind, rng.choice(vs))
+            ctx.evaluated()
+            ctx.count("first_read_after_other_side_change_probes")
+            case = {"kind": "returned", "ops": history, "accessor": "u_vertices", "mutation": kind, "mode": "first_read"}
+            again = u.vertices
+            if not oracles.same_identities(list(again), expect):
+                ctx.violation("returned:u_vertices:first_read_after_vertex_side_change:membership_changed",
+                              f"after a vertex-side membership change and {kind} on the first list read from "
+                              f"Universe.vertices, the universe lists {pool.names(again)} instead of {pool.names(expect)}", case)
+                continue
+            if how != "mutated" or not expect:
+                continue
+            ctx.nontrivial(("first", kind, len(expect), cache))
+            inuni = lambda x: any(x is m for m in expect)  # noqa: E731
+            for start in expect[:3]:
+                refo = oracles.outcome(oracles.ref_bfs, start,
+                                       lambda x: [w for w in helpers.neighbors(x, oracles.ANY, oracles.NEIGHBOR, None) if w is not None],
+                                       inuni)
+                if refo[0] != "ok":
+                    continue  # a degenerate edge in reach: neighbors() itself refuses, nothing to compare
+                ref = refo[1][0]
+                for fn in (breadthfirst.bft, depthfirst.dft_iterative, depthfirst.dft_recursive):
+                    got = oracles.outcome(fn, u, start, direction_sensitive=oracles.ANY, unknown_handling=oracles.NEIGHBOR)
+                    if got[0] != "ok":
+                        continue  # the traversal refuses this (degenerate) graph on its own
+                    if {id(x) for x in got[1]} != {id(x) for x in ref}:
+                        ctx.violation("returned:u_vertices:first_read_after_vertex_side_change:later_traversal_changed",
+                                      f"after {kind} on the first list read from Universe.vertices following a vertex-side "
+                                      f"membership change, {fn.__name__}(u, {pool.name(start)}) gives "
+                                      f"{pool.names(got[1]) if got[0] == 'ok' else got[1].__name__}; members {pool.names(expect)} reach "
+                                      f"{pool.names(ref)}", case)
+                        break
+        finally:
+            Vertex.NEIGHBOR_CACHING = False
+
+
 def probe_inputs(ctx, rng):
     """Containers passed to constructors / builders are copied."""
     def fresh(allow_unhashable=True):
@@ -491,6 +557,8 @@ def run(ctx):
             driver.execute(pool, ["mkw", "W9", 3])
         probe_returned(ctx, pool, rng, eng.executed)
         probe_siblings(ctx, pool, rng, eng.executed)
+        for _ in range(4):
+            probe_first_reads(ctx, pool, rng, eng.executed)
         if ctx.shard == 0 and i in (0, 7):
             ctx.sample({"pool_history": eng.executed[:30], "probes": "every accessor x caching mode x one random mutation"})
     for _ in range(10 if quick else 30):
@@ -511,6 +579,8 @@ def replay(ctx, case):
         for s in range(40):
             if case.get("mode") == "sibling":
                 probe_siblings(ctx, eng.pool, random.Random(s), case["ops"])
+            elif case.get("mode") == "first_read":
+                probe_first_reads(ctx, eng.pool, random.Random(s), case["ops"])
             else:
                 probe_returned(ctx, eng.pool, random.Random(s), case["ops"])
     ctx.nontrivial("replay-a")
